@@ -8,6 +8,9 @@ use tokio::sync::mpsc::UnboundedSender;
 pub struct RealWorkerComm {
     sender: Option<UnboundedSender<Bytes>>,
     worker_is_empty_notify: Option<Rc<Notify>>,
+    /// If set, task futures are handed to the simulation harness instead of `spawn_local`.
+    #[cfg(feature = "verif")]
+    sim_spawner: Option<crate::verif::SimSpawner>,
 }
 
 pub enum WorkerComm {
@@ -21,6 +24,17 @@ impl WorkerComm {
         WorkerComm::Real(RealWorkerComm {
             sender: Some(sender),
             worker_is_empty_notify: None,
+            #[cfg(feature = "verif")]
+            sim_spawner: None,
+        })
+    }
+
+    #[cfg(feature = "verif")]
+    pub(crate) fn verif_new(sender: UnboundedSender<Bytes>, spawner: crate::verif::SimSpawner) -> Self {
+        WorkerComm::Real(RealWorkerComm {
+            sender: Some(sender),
+            worker_is_empty_notify: None,
+            sim_spawner: Some(spawner),
         })
     }
 
@@ -85,6 +99,13 @@ impl WorkerComm {
     }
 
     pub fn spawn_task(&mut self, future: impl Future<Output = ()> + 'static) {
+        #[cfg(feature = "verif")]
+        if let WorkerComm::Real(comm) = self
+            && let Some(spawner) = &comm.sim_spawner
+        {
+            spawner(Box::pin(future));
+            return;
+        }
         match self {
             WorkerComm::Real(_) => {
                 tokio::task::spawn_local(future);
